@@ -10,7 +10,10 @@ package main
 //  part R  free-running -race build of the same bodies (detection, not enumeration).
 
 import (
+	"archive/zip"
 	"bufio"
+	"bytes"
+	"io"
 	"encoding/json"
 	"fmt"
 	"os"
@@ -25,6 +28,7 @@ import (
 	"github.com/zerx-lab/wordZero/pkg/document"
 	"github.com/zerx-lab/wordZero/pkg/style"
 
+	"verif/harness/internal/pkgmodel"
 	"verif/harness/internal/rep"
 	"verif/harness/internal/schedx"
 	"verif/harness/internal/shard"
@@ -76,6 +80,28 @@ var c07Ops = []c07Op{
 		}
 		d.AddParagraph("big")
 	}},
+	{"FormatExistingRuns(bold,red)", func(d *document.Document, log *[]string) {
+		// edit what is already in the document (content inherited from the common source)
+		for _, p := range d.Body.GetParagraphs() {
+			for i := range p.Runs {
+				if p.Runs[i].Properties == nil {
+					p.Runs[i].Properties = &document.RunProperties{}
+				}
+				p.Runs[i].Properties.Bold = &document.Bold{}
+				p.Runs[i].Properties.Color = &document.Color{Val: "FF0000"}
+			}
+			break
+		}
+	}},
+	{"ResizeExistingDrawings", func(d *document.Document, log *[]string) {
+		for _, p := range d.Body.GetParagraphs() {
+			for i := range p.Runs {
+				if dr := p.Runs[i].Drawing; dr != nil && dr.Inline != nil && dr.Inline.Extent != nil {
+					dr.Inline.Extent.Cx = "123456"
+				}
+			}
+		}
+	}},
 }
 
 // Document origins: distinct documents may descend from a common source.
@@ -87,12 +113,13 @@ var c07OriginNames = []string{"new", "opened", "rendered"}
 // alphabets per origin (indices into c07Ops)
 var c07Alphabet = [][]int{
 	{0, 1, 2, 3, 4, 5, 6, 7, 8, 9, 10, 13},
-	{0, 1, 3, 6, 10, 11, 12},
-	{0, 1, 3, 6, 13, 11, 12},
+	{0, 1, 3, 6, 10, 11, 12, 14, 15},
+	{0, 1, 3, 6, 13, 11, 12, 14, 15},
 }
 
 func c07BaseDoc() *document.Document {
 	d := document.New()
+	d.AddFormattedParagraph("static", &document.TextFormat{Italic: true, FontSize: 11}) // a formatted run without placeholder: cloned as is by rendering
 	d.AddParagraph("base {{v}}")
 	d.AddHeader(document.HeaderFooterTypeDefault, "H")
 	d.AddFooter(document.HeaderFooterTypeDefault, "F")
@@ -157,6 +184,9 @@ func c07Finish(d *document.Document, log []string) c07Result {
 		return r
 	}
 	r.Parts = parts
+	for k, v := range docFacets(b) {
+		r.Parts[k] = v
+	}
 	return r
 }
 
@@ -174,8 +204,10 @@ func c07RunHistoryOn(mk func() *document.Document, h []int) c07Result {
 	if p := guard(func() {
 		d = mk()
 		for _, o := range h {
+			schedx.Yield("before-op") // no effect outside a schedule exploration
 			c07Ops[o].f(d, &log)
 		}
+		schedx.Yield("before-save")
 	}); p != "" {
 		return c07Result{Err: "panic: " + p}
 	}
@@ -319,6 +351,16 @@ func c07Diff(got, want c07Result) []string {
 		if got.Parts[n] != h {
 			seen[c07PartClass(n)] = true
 		}
+	}
+	// the main part is named by the facet that differs (text, run properties, drawings, ...) when one does
+	facet := false
+	for k := range seen {
+		if strings.HasPrefix(k, "word/document.xml#") {
+			facet = true
+		}
+	}
+	if facet {
+		delete(seen, "word/document.xml")
 	}
 	for n := range got.Parts {
 		if _, ok := want.Parts[n]; !ok {
@@ -600,7 +642,7 @@ func c07SchedWorker(c *shard.Ctx) {
 			return bodies, nil
 		}
 		outcomes := map[string]bool{}
-		st := schedx.Explore(scenario, schedx.Options{Bound: a.SchedBound, Horizon: 200000, MaxExec: a.MaxExec, Progress: c.Heartbeat}, func(r *schedx.Result) {
+		onExec := func(r *schedx.Result) {
 			P.Evals++
 			P.Traces++
 			P.Transitions += int64(len(r.Points))
@@ -630,7 +672,8 @@ func c07SchedWorker(c *shard.Ctx) {
 				}
 			}
 			outcomes[sig] = true
-		})
+		}
+		st := exploreTiers(scenario, a.MaxExec, c.Heartbeat, a.Threads3, onExec, P, fmt.Sprint(names))
 		for o := range outcomes {
 			P.Outcome("sched:" + o)
 		}
@@ -693,7 +736,15 @@ func racePassChild(bodies []func(), reps int) {
 	// warm-up: the encoding/xml and reflect caches must be quiescent, otherwise their internal locks order the accesses
 	warm, allPairs := 200, true
 	if os.Getenv("VCHECK_TIER") != "thorough" {
-		warm, allPairs = 80, false
+		warm, allPairs = 50, false
+		// quick: every third body (the bodies are ordered so that this keeps note, list, image, style and shared-source bodies)
+		var sub []func()
+		for i, b := range bodies {
+			if i%3 == 0 || i >= len(bodies)-4 {
+				sub = append(sub, b)
+			}
+		}
+		bodies = sub
 	}
 	for i := 0; i < warm; i++ {
 		for _, b := range bodies {
@@ -828,7 +879,7 @@ func runC07(r *rep.Run) {
 	r.Bounds["max_history_len_A"] = maxA
 	r.Bounds["max_history_len_B"] = maxB
 	r.Bounds["third_document"] = three
-	r.Bounds["preemption_bound"] = bound
+	r.Bounds["preemption_bound"] = map[string]int{"statement-level points": 1, "lock operations and function entries": 2}
 	r.Bounds["threads"] = map[bool]int{false: 2, true: 3}[three]
 	r.Assume = []string{
 		"between two scheduling points a thread runs alone (sequential consistency at instrumented granularity); unsynchronised accesses are looked for separately by the race detector, which detects but does not enumerate",
@@ -888,4 +939,74 @@ func runC07(r *rep.Run) {
 		}
 	}
 	runRacePass(r, "C07", "two goroutines working on distinct documents")
+}
+
+
+var facetCache = map[string]map[string]string{}
+
+// docFacets hashes aspects of the main part separately so that a difference can be named:
+// text, run properties, paragraph properties, drawings, section properties, element skeleton.
+func docFacets(pkgBytes []byte) map[string]string {
+	zr, err := zip.NewReader(bytes.NewReader(pkgBytes), int64(len(pkgBytes)))
+	if err != nil {
+		return nil
+	}
+	for _, f := range zr.File {
+		if f.Name != "word/document.xml" {
+			continue
+		}
+		rc, err := f.Open()
+		if err != nil {
+			return nil
+		}
+		raw, _ := io.ReadAll(rc)
+		rc.Close()
+		key := rep.Hash(string(raw))
+		if m, ok := facetCache[key]; ok {
+			return m
+		}
+		root, probs := pkgmodel.ParseXML(raw)
+		if root == nil || len(probs) > 0 {
+			return nil
+		}
+		acc := map[string]*strings.Builder{"text": {}, "rPr": {}, "pPr": {}, "drawing": {}, "sectPr": {}, "skeleton": {}}
+		var walk func(n *pkgmodel.Node, inDrawing bool)
+		walk = func(n *pkgmodel.Node, inDrawing bool) {
+			if n.IsText {
+				return
+			}
+			switch {
+			case n.Local == "drawing":
+				acc["drawing"].WriteString(pkgmodel.Canon(n, nil))
+				return
+			case n.Local == "rPr" && n.Space == pkgmodel.NsW:
+				acc["rPr"].WriteString(pkgmodel.Canon(n, nil) + ";")
+				return
+			case n.Local == "pPr" && n.Space == pkgmodel.NsW:
+				acc["pPr"].WriteString(pkgmodel.Canon(n, nil) + ";")
+				return
+			case n.Local == "sectPr" && n.Space == pkgmodel.NsW:
+				acc["sectPr"].WriteString(pkgmodel.Canon(n, nil) + ";")
+				return
+			case n.Local == "t" && n.Space == pkgmodel.NsW:
+				acc["text"].WriteString(n.InnerText() + "\x00")
+				return
+			}
+			acc["skeleton"].WriteString("<" + n.Local)
+			for _, k := range n.Elems() {
+				walk(k, inDrawing)
+			}
+			acc["skeleton"].WriteString(">")
+		}
+		walk(root, false)
+		m := map[string]string{}
+		for k, b := range acc {
+			m["word/document.xml#"+k] = rep.Hash(b.String())
+		}
+		if len(facetCache) < 100000 {
+			facetCache[key] = m
+		}
+		return m
+	}
+	return nil
 }
